@@ -135,8 +135,8 @@ def choke_point_rules(prog, res: Result):
     n = len(check_ownership(res, "R05.1", writes, "_amount",
                             {"Quantity.__new__": {"="}, "Quantity.allocate": {"aug"}}, cg))
     n += len(check_ownership(res, "R05.1", writes, "_unit", {"Quantity.__new__": {"="}}, cg))
-    if n < 3:
-        raise AnalysisError(f"R05.1: {n} stores of quantity fields found, 3 confirmed on the pinned tree")
+    if n < 2:
+        raise AnalysisError(f"R05.1: {n} stores of quantity fields found, at least 2 expected (amount, unit)")
     # no alternative creation path for quantity instances
     for cname in ("Quantity", "Money"):
         ci = prog.cls(cname)
